@@ -42,6 +42,7 @@ type entry struct {
 	needSetup bool
 	txKind    bool // needs transactions in B
 	blockOnly bool // no AddHeaders sub-mode
+	multiOnly bool // needs more than one validator
 	why       string
 	mk        func(w *world, cr Corruption) mutant
 	special   func(w *world, cr Corruption, o *vt.Obs) error // own flow instead of mk
@@ -52,10 +53,10 @@ var (
 	byKind    = map[string]*entry{}
 )
 
-func kindsFor(srih bool) []string {
+func kindsFor(srih, multi bool) []string {
 	var out []string
 	for _, e := range catalogue {
-		if e.srihOnly && !srih {
+		if e.srihOnly && !srih || e.multiOnly && !multi {
 			continue
 		}
 		out = append(out, e.name)
@@ -227,7 +228,9 @@ func init() {
 	reg(&entry{name: "hdr-primary-inrange", why: "control: the primary index is not among the listed conditions and any validator may be primary",
 		mk: func(w *world, cr Corruption) mutant {
 			n := len(w.vals.Keys)
-			nb := hdrMut(w, func(b *block.Block) { b.PrimaryIndex = byte((int(b.PrimaryIndex) + 1 + mod(int(cr.X), max(1, n-1))) % n) })
+			nb := hdrMut(w, func(b *block.Block) {
+				b.PrimaryIndex = byte((int(b.PrimaryIndex) + 1 + mod(int(cr.X), max(1, n-1))) % n)
+			})
 			return mutant{raw: encBlock(nb), expB: vAccept, expH: vAccept, hdrValid: true}
 		}})
 	reg(&entry{name: "hdr-primary-outofrange", why: "primary index beyond the validators: not among the listed conditions: no verdict",
@@ -289,7 +292,8 @@ func init() {
 		why: "the node already holds the headers of B and of a validator-signed N+2 whose previous state root is not the one B produces; B is then refused after having been executed: that refusal must leave no trace"})
 	// ------------------------------------------------------------------ witness (header untouched: same hash as B)
 	wit := func(name, why string, exp verdict, f func(w *world, cr Corruption, b *block.Block) string) {
-		reg(&entry{name: name, why: why, mk: func(w *world, cr Corruption) mutant {
+		multi := name == "wit-reordered" || name == "wit-dup-sig" || name == "wit-extra-sig" || name == "wit-other-sigset"
+		reg(&entry{name: name, why: why, multiOnly: multi, mk: func(w *world, cr Corruption) mutant {
 			nb := w.freshB()
 			if s := f(w, cr, nb); s != "" {
 				return mutant{skip: s}
@@ -560,6 +564,16 @@ func init() {
 				return nil, "crafting account is empty"
 			}
 			return []*transaction.Transaction{w.over1, w.over2}, ""
+		})
+	tx("tx-sysfee-over-blocklimit", "one affordable transaction whose system fee exceeds MaxBlockSystemFee (a consensus/mempool policy, not among the listed conditions): no verdict", false,
+		func(w *world, cr Corruption) mutant {
+			if w.overLimit == nil {
+				return mutant{skip: "crafting account cannot afford it"}
+			}
+			nb := txMut(w, func(t []*transaction.Transaction) []*transaction.Transaction {
+				return insertAt(t, cr.J, cloneTx(w.overLimit))
+			})
+			return mutant{raw: encBlock(nb), expB: vEither, expH: vAccept, hdrValid: true}
 		})
 	withTx("tx-underfunded", "a transaction whose fees exceed the sender's balance", false, "",
 		func(w *world, cr Corruption) ([]*transaction.Transaction, string) {
